@@ -524,3 +524,16 @@ package fr
 //@ loop 1 invariant forall j int :: 0 <= j && j < len(a) ==> zeroes[j] == (a[j] == fr_zero)
 //@ loop 1 invariant forall j int :: 0 <= j && j <= i ==> res[j] == (a[j] != fr_zero ? prefP(a, j) : fr_zero)
 //@ loop 1 invariant forall j int :: i < j && j < len(a) ==> res[j] == fr_inv(a[j])
+
+// ---- exponentiation (C15), field view: left-to-right square-and-multiply over the bits of a big.Int exponent
+//@ func Element.Exp
+//@ props C15
+//@ view opaque
+//@ prelude field frpow bitsplit
+//@ requires *exponent >= 0
+//@ ensures result == z && *z == frpow(x, *exponent)
+//@ modifies *z
+//@ ghost var H Int 1
+//@ at call Square 0: set H := 2 * H
+//@ at call Mul 0: set H := H + 1
+//@ loop 0 invariant 0 - 1 <= i && *z == frpow(x, H) && H >= 1 && H == (*exponent >> (i + 1)) && *exponent >= 1
